@@ -30,7 +30,7 @@ def enc_instances(tier="quick"):
                                     params={"n": 2, "base2k": b, "k": k, "rank": rank, "secret": sec},
                                     symbolic=["one seed byte", "error values", "prior receiver content", "plaintext digits: 1 word (quick) / all + stream table entries (thorough)"], stubs=ENC_STUBS,
                                     functions=["poulpy-core/src/encryption/compressed/glwe_ct.rs::glwe_compressed_encrypt_sk", "poulpy-core/src/layouts/compressed/glwe.rs::decompress_glwe", "poulpy-core/src/encryption/glwe.rs::glwe_encrypt_sk / glwe_encrypt_sk_internal"] + PROBE2,
-                                    timeout=3600 if nsym == 999 else 1800, mem_gb=24, core=(b, k, rank, variant) in ((17, 35, 2, 0), (12, 12, 1, 0)) and nsym == 1))
+                                    timeout=2400 if nsym == 999 else 1800, mem_gb=24, core=(b, k, rank, variant) in ((17, 35, 2, 0), (12, 12, 1, 0)) and nsym == 1))
     # quick tier: shapes calibrated below 10 min under full load; the others only in the thorough tier
     light = {(12, 36, 1, 2, 1, 1), (12, 36, 1, 2, 2, 1), (12, 36, 2, 1, 1, 1), (12, 36, 2, 1, 2, 1), (12, 60, 2, 2, 1, 1)}
     for b, k, dsize, dnum in ((12, 36, 1, 2), (12, 36, 2, 1), (12, 60, 2, 2), (12, 48, 3, 1), (8, 40, 1, 4)):
@@ -48,7 +48,7 @@ def enc_instances(tier="quick"):
                                 symbolic=["plaintext coefficients in [-4,4]: 1 (quick) / all + one seed byte (thorough)"], stubs=ENC_STUBS,
                                 functions=["poulpy-core/src/encryption/compressed/gglwe.rs::gglwe_compressed_encrypt_sk", "poulpy-core/src/layouts/compressed/gglwe.rs::decompress_gglwe", "poulpy-core/src/encryption/gglwe.rs::gglwe_encrypt_sk",
                                            "poulpy-core/src/decryption/glwe.rs::glwe_decrypt_default"] + PROBE2,
-                                timeout=3600 if nsym == 999 else 2400, mem_gb=24, core=(b, k, dsize, dnum, ri, ro) in ((12, 60, 2, 2, 1, 1), (12, 36, 2, 1, 2, 1)) and nsym == 1))
+                                timeout=2400, mem_gb=24, core=(b, k, dsize, dnum, ri, ro) in ((12, 60, 2, 2, 1, 1), (12, 36, 2, 1, 2, 1)) and nsym == 1))
     return out
 
 
